@@ -58,7 +58,38 @@ def analyse_table_parser(repo: Repo, run: Run, interp) -> None:
     key = val = None
     conds = ()
     src = None
+    # dict(<pairs>) builds the table from (key, name) pairs in the order they are produced - the same as the comprehension -
+    # provided nothing reorders the pairs in between: `dict(sorted(pairs))` orders the lines of a repeated id by name
+    reorder = None
+    if ret.op == "call" and ret.a[0] == T("builtin", ("dict",)) and len(ret.a[1]) == 1 and not ret.a[2]:
+        inner = ret.a[1][0]
+        while inner.op == "call" and inner.a[0].op == "builtin" and inner.a[0].a[0] in ("list", "tuple", "iter") \
+                and len(inner.a[1]) == 1 and not inner.a[2]:
+            inner = inner.a[1][0]
+        if inner.op == "call" and inner.a[0].op == "builtin" and inner.a[0].a[0] in ("sorted", "reversed", "set", "frozenset") \
+                and len(inner.a[1]) == 1:
+            how = inner.a[0].a[0]
+            kw = dict(inner.a[2])
+            keyf = kw.get("key")
+            by_first = keyf is not None and (
+                (keyf.op == "lambda" and len(keyf.a) > 1 and keyf.a[1].op == "sub" and keyf.a[1].a[1] == const(0)
+                 and keyf.a[1].a[0].op == "bound")
+                or (keyf.op == "call" and keyf.a[0] == T("global", ("operator.itemgetter",)) and keyf.a[1] == (const(0),)))
+            if not (how == "sorted" and by_first):          # a stable sort on the id alone keeps the lines of one id in order
+                reorder = f"{how}(...)" + ("" if keyf is None else " with a key that is not the id alone")
+            inner = inner.a[1][0]
+            while inner.op == "call" and inner.a[0].op == "builtin" and inner.a[0].a[0] in ("list", "tuple", "iter") \
+                    and len(inner.a[1]) == 1 and not inner.a[2]:
+                inner = inner.a[1][0]
+        if inner.op == "comp" and inner.a[0] in ("list", "gen") and len(inner.a[2]) == 1 and inner.a[1].op == "tuple" \
+                and len(inner.a[1].a[0]) == 2:
+            ret = T("comp", ("dict", T("tuple", ((inner.a[1].a[0][0], inner.a[1].a[0][1]),)), inner.a[2]))
     if ret.op == "comp" and ret.a[0] == "dict" and len(ret.a[2]) == 1:
+        run.ob("R1", TC, "from_trace_codes_text", "pairs reach the table in line order", reorder is None,
+               "" if reorder is None else
+               f"the (id, name) pairs go through {reorder} before the table is built: for an id listed on several lines the "
+               f"entry kept is the last in that order, not the one on the last line", line=fn.lineno,
+               witness="'0x1 zzz\\n0x1 aaa' must map 1 to 'aaa'")
         elemvar, it, conds = ret.a[2][0]
         src, f = _line_source(it)
         kv = ret.a[1]
